@@ -145,6 +145,7 @@ def judge(ctx, case):
             routes['pack-pos'] = lambda: pack('bool', pv)
             routes['pack-eq'] = lambda: pack(f'bool={pv}')
             routes['Array'] = lambda: Array('bool', [pv]).data
+            routes['kw-after-prop-target-mutated'] = lambda: (_mutated(_assign(mcls(1), 'bool', pv)), cls(bool=pv))[1]
         elif fam == 'bits':
             routes['Dtype(name,n).build'] = lambda: Dtype('bits', n).build(pv)
             routes['pack-pos'] = lambda: pack(f'bits:{n}', pv)
@@ -169,6 +170,9 @@ def judge(ctx, case):
             routes['pack-list-tail'] = lambda: pack([f'{name}:{n}={sv}', 'uint:3=5', f'{name}:{n}'], pv)[nbits + 3:]
             routes['pack-eq-after-list'] = lambda: pack(f'{name}:{n}={sv}')
             routes['Array'] = lambda: Array(f'{name}{n}', [pv]).data
+            # the value assigned to a mutable object, that object changed in place, then the value created afresh
+            routes['kw-after-prop-target-mutated'] = lambda: (_mutated(_assign(mcls(n), name, pv)), cls(**{name: pv, 'length': n}))[1]
+            routes['prop+len-after-prop-target-mutated'] = lambda: (_mutated(_assign(mcls(), f'{name}{n}', pv)), _assign(mcls(), f'{name}{n}', pv))[1]
             if fam in ('hex', 'oct', 'bin'):
                 routes['kw-no-length'] = lambda: cls(**{name: pv})
                 routes['kw-prefixed'] = lambda: cls(**{name: {'hex': '0x', 'oct': '0o', 'bin': '0b'}[fam] + pv})
@@ -197,6 +201,11 @@ def judge(ctx, case):
             'readlist': lambda: ConstBitStream(s).readlist([tok])[0],
             'read-Dtype': lambda: ConstBitStream(s).read(Dtype(name, n) if fam != 'bool' else Dtype('bool')),
         }
+        if fam not in ('bool', 'bytes'):
+            # Dtype objects as items of a format list; the plain Dtype read right after a scaled one of the same name and length
+            reads['readlist-[Dtype]-after-scaled'] = lambda: (call(lambda: ConstBitStream(s).readlist([Dtype(name, n, scale=4)])),
+                                                              ConstBitStream(s).readlist([Dtype(name, n)])[0])[1]
+            reads['unpack-[Dtype]'] = lambda: s.unpack([Dtype(name, n)])[0]
         if fam != 'bool':
             reads['unpack-kwlen'] = lambda: s.unpack(f'{name}:k', k=n)[0]
             reads['readlist-kwlen'] = lambda: ConstBitStream(s).readlist(f'{name}:k', k=n)[0]
@@ -225,6 +234,13 @@ def judge(ctx, case):
         elif fam not in ('bits',) and not K.same_value(expv, pv if fam not in ('hex', 'oct', 'bin') else K.tidy(pv, '')):
             ctx.mismatch(f'C02|model|{fam}|self-check', case, f'{expv!r} vs {pv!r}')
     ctx.state(name, n, exp if nbits < 80 else hash(exp))
+
+
+def _mutated(o):
+    if len(o):
+        o.invert()
+    o.append('0b1')
+    return o
 
 
 def _assign(o, attr, v):
